@@ -83,7 +83,8 @@ fn check_morphisms(ctx: &mut Ctx, case: &Value, s: &RS, cs: &PartialDSym, t: &RS
     };
     for e in 1..=t.n {
         ctx.ops(1);
-        let exp = s.morphism_from(t, e - 1).map(|f| to1(&f));
+        // symbols of different dimension have different sets of operations: no map commutes with "all" of them
+        let exp = if s.dim() != t.dim() { None } else { s.morphism_from(t, e - 1).map(|f| to1(&f)) };
         match ctx.guard(|| cs.morphism(&ct, e)) {
             Ok(got) => {
                 if got != exp {
@@ -213,8 +214,8 @@ fn check_sym(ctx: &mut Ctx, family: &str, s: &RS, small: &[RS], full: bool) {
     }
     ctx.add("two_sheeted_covers", covs.len() as i64);
     for t in small {
-        if t.dim() == s.dim() {
-            check_morphisms(ctx, &case, s, &cs, t, "small symbol");
+        if t.dim() == s.dim() || (s.n <= 2 && t.n <= 2) {
+            check_morphisms(ctx, &case, s, &cs, t, if t.dim() == s.dim() { "small symbol" } else { "small symbol of another dimension" });
         }
     }
     // covers from the crate (supply only; verified to be coverings before use)
